@@ -47,16 +47,16 @@ func fn(kind string, n int32) *bt.Filter { return &bt.Filter{Kind: kind, N: n} }
 func c05Leaves() []*bt.Filter {
 	var out []*bt.Filter
 	out = append(out, &bt.Filter{Kind: "pass", B: true}, &bt.Filter{Kind: "pass"}, &bt.Filter{Kind: "block", B: true}, &bt.Filter{Kind: "block"})
-	for _, p := range []string{"r1", "r.*", "r1|r3", "(", "r", "k\xff", "k\\C", ".*", ""} {
+	for _, p := range []string{"r1", "r.*", "r1|r3", "(", "r", "k\xff", "k\\C", ".*", "", "n.k", "n\\Ck", "n.*"} {
 		out = append(out, re("key_re", p))
 	}
 	for _, p := range []string{"f", "f|g", ".*", "(", "", "g.*", "."} {
 		out = append(out, re("fam_re", p))
 	}
-	for _, p := range []string{"a", "a|b", ".*", "(", "", "\xff\x00", "\xff\\C", ".", "a*"} {
+	for _, p := range []string{"a", "a|b", ".*", "(", "", "\xff\x00", "\xff\\C", ".", "a*", "q.", "q\\C", "\\C*"} {
 		out = append(out, re("qual_re", p))
 	}
-	for _, p := range []string{"x.", "x0|y", ".*", "", "bin\x80", "(", "x", "abc|z", "(a|b)c*", "\\C*"} {
+	for _, p := range []string{"x.", "x0|y", ".*", "", "bin\x80", "(", "x", "abc|z", "(a|b)c*", "\\C*", "a.b", "a\\Cb", ".", "\\C"} {
 		out = append(out, re("val_re", p))
 	}
 	ends := []struct {
@@ -139,7 +139,12 @@ func c05Tables() [][]bt.Op {
 		T("r1", mset("f", "a", 2000, "a2"), mset("f", "a", 1000, "a1"), mset("f", "b", 1000, "b1"), mset("f", "c", 2000, "c2"), mset("f", "c", 1000, "c1"), mset("f", "d", 1000, "d1")),
 		T("r2", mset("f", "c", 1000, "x"), mset("f", "a", 1000, "y")),
 	)
-	return [][]bt.Op{t1, t2, t3, setupT(), t4}
+	// new-line bytes in a row key, a qualifier and values: "." does not match them (RE2 without the s flag), "\C" does
+	t5 := append(setupT(),
+		T("n\nk", mset("f", "q\n", 1000, "a\nb"), mset("f", "qx", 1000, "\n"), mset("g", "q", 1000, "axb")),
+		T("nxk", mset("f", "q\n", 1000, "a\nb"), mset("f", "a", 2000, ""), mset("g", "a", 1000, "x\n")),
+	)
+	return [][]bt.Op{t1, t2, t3, setupT(), t4, t5}
 }
 
 func init() {
